@@ -817,7 +817,7 @@ def run(tier: str, seed: int, replay=None) -> int:
                    for c in cases[len(corpus_cases):][:: max(1, len(cases) // 6)]][:6]
     seen = set()
     for c, why in viol:
-        sig = json.dumps(c["q"]["cond"])[:200] + why
+        sig = ("the " if c["q"]["the"] else "an ") + json.dumps(c["q"]["cond"])[:200] + why
         if sig in seen or len(seen) >= 6:
             continue
         seen.add(sig)
